@@ -63,6 +63,10 @@ func c07Bodies() []c07Body {
 				iterAll(it)
 				it.SeekToLast()
 			}
+			// the other argument shape: no bounds at all
+			if it, err := x.eng.GetRangeIterator(nil, nil); err == nil {
+				iterAll(it)
+			}
 		}},
 		{Name: "Engine.ApplyBatch", Run: func(x *c07Env) {
 			x.eng.ApplyBatch([]*wal.Entry{{Type: wal.OpTypePut, Key: k("b"), Value: k("3")}, {Type: wal.OpTypeDelete, Key: k("a")}})
@@ -112,7 +116,10 @@ func c07Bodies() []c07Body {
 		{Name: "Tx.Get", Tx: true, Run: func(x *c07Env) { x.tx.Get(k("a")); x.tx.IsReadOnly() }},
 		{Name: "Tx.Delete", Tx: true, Run: func(x *c07Env) { x.tx.Delete(k("b")) }},
 		{Name: "Tx.NewIterator", Tx: true, Run: func(x *c07Env) { iterAll(x.tx.NewIterator()) }},
-		{Name: "Tx.NewRangeIterator", Tx: true, Run: func(x *c07Env) { iterAll(x.tx.NewRangeIterator(k("a"), k("c"))) }},
+		{Name: "Tx.NewRangeIterator", Tx: true, Run: func(x *c07Env) {
+			iterAll(x.tx.NewRangeIterator(k("a"), k("c")))
+			iterAll(x.tx.NewRangeIterator(nil, nil))
+		}},
 		{Name: "Tx.Commit", Tx: true, Run: func(x *c07Env) { x.tx.Commit() }},
 		{Name: "Tx.Rollback", Tx: true, Run: func(x *c07Env) { x.tx.Rollback() }},
 	}
@@ -405,7 +412,7 @@ func init() {
 	fw.Register(&fw.Check{
 		ID:    "C07",
 		Level: "model_checking",
-		Rule: "entry points are taken from the method sets of *EngineFacade, interfaces.Transaction, interfaces.CompactionManager and stats.Collector (reflection; a method with neither a body nor a recorded exclusion is a HARNESS-ERROR). For every unordered pair of the 22 engine-level bodies (incl. a body with itself), every pair of the 7 transaction methods on one shared transaction, transaction methods against engine traffic, 4 triples and 4 statistics/maintenance pairs on an engine that has already completed a compaction cycle, on an engine with 2 level-0 files, an immutable table with a pending flush and a live background flush thread: pass 1 = all interleavings with <=1 deviation (2 thorough) under the controlled scheduler; deadlock, livelock, panic, step horizon or an unusable engine is a violation (witness: blocked threads and call sites). plus a burst of 4 writes on a 1-byte memtable (every write switches the table and wakes the background flush) with <=2 (3) deviations. pass 3 = the same bodies free-running in a -race build, 5 (60) iterations per group; a race report, panic, fatal error or a call that does not return within 60 s is a violation. Non-trivial = executions with a cross-thread conflict / completed iterations",
+		Rule: "entry points are taken from the method sets of *EngineFacade, interfaces.Transaction, interfaces.CompactionManager and stats.Collector (reflection; a method with neither a body nor a recorded exclusion is a HARNESS-ERROR). For every unordered pair of the 22 engine-level bodies (incl. a body with itself; range iterators are opened both with bounds and with nil bounds), every pair of the 7 transaction methods on one shared transaction, transaction methods against engine traffic, 4 triples and 4 statistics/maintenance pairs on an engine that has already completed a compaction cycle, on an engine with 2 level-0 files, an immutable table with a pending flush and a live background flush thread: pass 1 = all interleavings with <=1 deviation (2 thorough) under the controlled scheduler; deadlock, livelock, panic, step horizon or an unusable engine is a violation (witness: blocked threads and call sites). plus a burst of 4 writes on a 1-byte memtable (every write switches the table and wakes the background flush) with <=2 (3) deviations. pass 3 = the same bodies free-running in a -race build, 5 (60) iterations per group; a race report, panic, fatal error or a call that does not return within 60 s is a violation. Non-trivial = executions with a cross-thread conflict / completed iterations",
 		Assumptions: []string{"data races are decided by the Go race detector on free-running executions of the same bodies (sampled schedules); the exhaustive pass covers deadlock, livelock, panics and non-returning calls", "Close concurrent with other calls is out of scope"},
 		Units: func(tier string) []string {
 			var us []string
